@@ -23,6 +23,8 @@ ASSUMPTIONS = [
     "jhttp.Channel: Send and Close are not called concurrently and Close is called at most once "
     "(jrpc2.Client serialises them under its mutex; C10)",
     "every cli.Do eventually returns (c19_close_progress: otherwise Close waits for it)",
+    "racing families (hc:race, hc:bridgerace) are judged by monitors only: Send/Notify bursts immediately followed by Close "
+    "without quiescence have no totally ordered log for the model acceptor",
 ]
 
 
@@ -113,7 +115,7 @@ def run(ctx, res):
                 "not a plain literal-string value (values typed as string/number/constant/bytes/error, all path, form and "
                 "getter cases). stateful: one jhttp.Channel scenario per case; non-trivial = distinct (scenario, log) with at "
                 "least one Send and a Close, or (family hc:bridge) with at least one client operation compared between "
-                "jhttp.Channel+Bridge and channel.Direct")
+                "jhttp.Channel+Bridge and channel.Direct, or (racing families) with at least one Send/Notify before the immediate Close")
     _pure(ctx, res)
     try:
         from . import hclib
